@@ -21,11 +21,16 @@ mod viewspec {
 }
 use viewspec::*;
 
+mod suspense;
+
 fn run_scenario(line: &str) -> Vec<String> {
     let sx = sexpr::parse(line);
     let l = sx.list();
     if l[0].atom() == "resource" {
         return panic::catch_unwind(AssertUnwindSafe(|| run_resource(&sx))).unwrap_or_else(|_| vec!["PANIC".to_string()]);
+    }
+    if l[0].atom() == "suspense" {
+        return panic::catch_unwind(AssertUnwindSafe(|| suspense::run(&sx))).unwrap_or_else(|_| vec!["PANIC".to_string()]);
     }
     assert_eq!(l[0].atom(), "seq");
     let mut out = Vec::new();
